@@ -16,13 +16,13 @@ from typing import Dict, List, Optional
 
 from .astq import FUNC_TYPES, ast_copy, src
 
-PURE_CALLS = {"len", "isinstance", "str", "int", "bool", "float", "id", "type", "getattr", "hasattr", "tuple", "frozenset"}
+PURE_CALLS = {"len", "isinstance", "bool", "id", "type", "getattr", "hasattr"}
 
 
 def is_pure(e) -> bool:
     for n in ast.walk(e):
         if isinstance(n, (ast.Await, ast.Yield, ast.YieldFrom, ast.NamedExpr, ast.Lambda, ast.ListComp, ast.SetComp, ast.DictComp, ast.GeneratorExp,
-                          ast.Subscript, ast.Starred, ast.JoinedStr, ast.List, ast.Dict, ast.Set, ast.Tuple)):
+                          ast.Subscript, ast.Starred, ast.JoinedStr, ast.List, ast.Dict, ast.Set, ast.Tuple, ast.IfExp, ast.BinOp)):
             return False
         if isinstance(n, ast.Call):
             if not (isinstance(n.func, ast.Name) and n.func.id in PURE_CALLS) or n.keywords:
@@ -158,33 +158,35 @@ def inline_aliases(fn, max_rounds=3) -> List[str]:
             reach = set()
             for m in succ0:
                 reach |= g.reachable(m)
-            if d.node.id in reach:
-                continue  # in a loop
             roots = {x.id for x in ast.walk(d.value) if isinstance(x, ast.Name)}
             if name in roots:
                 continue
-            bad = False
-            for n in g.live:
-                if n.id in reach:
-                    for dd in rd.gen[n.id]:
-                        if dd.name in roots:
-                            bad = True
-            chains = {src(x) for x in ast.walk(d.value) if isinstance(x, ast.Attribute)}
-            for n, t in attr_stores:
-                if n.id in reach or n is d.node:
-                    if any(c == t or c.startswith(t + ".") or t.startswith(c + ".") for c in chains):
-                        bad = True
-            if bad:
-                continue
             uses = []
+            use_nodes = []
             ok = True
             for n in g.live:
                 for x in n.walk():
                     if isinstance(x, ast.Name) and x.id == name and isinstance(x.ctx, ast.Load):
-                        if rd.defs_at(name, n) != frozenset([d]) or n is d.node:
+                        if rd.defs_at(name, n) != frozenset([d]) or n is d.node or not g.dominates(d.node, n):
                             ok = False
                         uses.append(x)
+                        if n not in use_nodes:
+                            use_nodes.append(n)
             if not ok or not uses:
+                continue
+            # operands must not change between the definition and a use: a redefinition N reachable from the
+            # definition D is harmless only if every path from N to a use passes through D again (next iteration)
+            bad = False
+            chains = {src(x) for x in ast.walk(d.value) if isinstance(x, ast.Attribute)}
+            for n in g.live:
+                if n.id not in reach:
+                    continue
+                touches = any(dd.name in roots for dd in rd.gen[n.id]) or any(
+                    nn is n and any(c == t or c.startswith(t + ".") or t.startswith(c + ".") for c in chains) for nn, t in attr_stores)
+                if touches and n is not d.node:
+                    if not all(g.must_pass(n, u, [d.node]) for u in use_nodes):
+                        bad = True
+            if bad:
                 continue
             # apply
             value = d.value
